@@ -66,7 +66,7 @@ def lb_config(balancers=('heap', 'aperture')):
                            st.lists(st.integers(0, 8), min_size=5, max_size=9, unique=True),
                            st.lists(st.integers(0, 8), max_size=9, unique=True)),
       'open_delay_ms': st.one_of(st.just([0]), st.lists(st.sampled_from([0, 0, 1, 5]), min_size=1, max_size=4)),
-      'open_fail': st.one_of(st.just([False]), st.just([False]), st.lists(st.sampled_from([False, False, False, True]), min_size=1, max_size=5)),
+      'open_fail': st.one_of(st.just([False]), st.lists(st.sampled_from([False, False, False, True]), min_size=1, max_size=5), st.lists(st.sampled_from([False, True]), min_size=1, max_size=3)),
       'sync_fail': st.booleans(),
       'aperture': aperture,
       # the provider names one of the members' additional endpoints (zk://...#name style) or uses the service endpoint
